@@ -78,6 +78,7 @@ type Facts struct {
 	GoStmts       []Site            `json:"go_statements"`
 	TimeNow       []Site            `json:"time_now"`
 	PackageVars   []string          `json:"package_vars"`
+	UncheckedRowLoops []string      `json:"unchecked_row_loops"`
 	Missing       []string          `json:"missing"`
 }
 
